@@ -930,22 +930,6 @@ pub fn run() {
                "cases": total_small, "cases_run": c.get_count("op:random_decomp"), "completed": c.get_count("op:random_decomp") as usize == total_small && c.replay.is_none()}),
     );
 
-    // ---- random histories ----
-    let (n_hist, max_len) = t.pick((8_000usize, 200usize), (300_000usize, 200usize));
-    par_cases("history", n_hist, move |r, i| {
-        let gd = gen_graph(r, 14);
-        let plan = HistoryPlan {
-            rng_kind: r.below(3),
-            decomp_seed: pick_seed(r),
-            move_seed: pick_seed(r),
-            len: if r.chance(0.2) { max_len.min(200) } else { r.below(max_len + 1) },
-            profile: r.below(PROFILES.len()),
-            query_p: *r.pick(&[0.0, 0.3, 1.0]),
-            first_move: None,
-        };
-        dispatch_history("history", i, r, &gd, &plan);
-    });
-
     // ---- annealer with library defaults on every graph class, smallest sizes first ----
     let n_def = t.pick(CLASSES.len() * 9 * 2, CLASSES.len() * 9 * 12);
     par_cases("annealer-defaults", n_def, move |r, i| {
@@ -1012,5 +996,21 @@ pub fn run() {
         st.add(&format!("wrapper-graphs:class:{}", gd.class), 1);
         st.flush();
         c.case("rank_decomp-wrapper", if gd.n >= 4 && !gd.edges.is_empty() { Some(gd.hash() ^ 0x77) } else { None });
+    });
+
+    // ---- random histories (the bulk of the time; last so that a time cut never starves the annealer families) ----
+    let (n_hist, max_len) = t.pick((8_000usize, 200usize), (200_000usize, 200usize));
+    par_cases("history", n_hist, move |r, i| {
+        let gd = gen_graph(r, 14);
+        let plan = HistoryPlan {
+            rng_kind: r.below(3),
+            decomp_seed: pick_seed(r),
+            move_seed: pick_seed(r),
+            len: if r.chance(0.2) { max_len.min(200) } else { r.below(max_len + 1) },
+            profile: r.below(PROFILES.len()),
+            query_p: *r.pick(&[0.0, 0.3, 1.0]),
+            first_move: None,
+        };
+        dispatch_history("history", i, r, &gd, &plan);
     });
 }
